@@ -10,6 +10,7 @@ def _field(ans, key):
 
 
 class C16(Prop):
+    named_errors = set()
     pid = "C16"
     title = "Rich header decode, checksum and encode are mutually consistent"
     thm_modules = ["PeliteModel.Thm.C16"]
